@@ -121,7 +121,8 @@ theorem tickedTarget_valid (sh : Shape) (tg : Target) (now : Nat) (od : Option D
 theorem select_cases (s : State) (sel : Option Nat) :
     (select s sel = s ∧ (sel = none ∨ sel = s.ref)) ∨
     (∃ i, sel = some i ∧ s.ref ≠ some i ∧
-      select s sel = retargetAll { s with ref := some i, refLmt := s.now } i (List.range s.nC)) := by
+      select s sel = retargetAll { s with ref := some i, refLmt := s.now, sched := s.sched ++ s.resample } i
+        (List.range s.nC)) := by
   rw [select_eq]
   cases sel with
   | none => exact Or.inl ⟨rfl, Or.inl rfl⟩
@@ -141,7 +142,7 @@ theorem select_frame (s : State) (sel : Option Nat) :
     (select s sel).now = s.now := by
   rcases select_cases s sel with ⟨h, _⟩ | ⟨i, _, _, h⟩
   · rw [h]; simp
-  · have := retargetAll_frame i (List.range s.nC) { s with ref := some i, refLmt := s.now }
+  · have := retargetAll_frame i (List.range s.nC) { s with ref := some i, refLmt := s.now, sched := s.sched ++ s.resample }
     rw [h]; simp at this; grind
 
 /-! ## Floor 1: the subscription invariant -/
@@ -195,7 +196,7 @@ theorem inv_select {s : State} (h : Inv s) (sel : Option Nat) : Inv (select s se
   rcases select_cases s sel with ⟨e, _⟩ | ⟨i, _, _, e⟩
   · rw [e]; exact h
   · rw [e]
-    let s0 : State := { s with ref := some i, refLmt := s.now }
+    let s0 : State := { s with ref := some i, refLmt := s.now, sched := s.sched ++ s.resample }
     have f := retargetAll_frame i (List.range s.nC) s0
     have hg : ∀ c, Good s0 c := fun c t => h.good c t
     have hd : ∀ t, ((retargetAll s0 i (List.range s.nC)).targets t).data = (s.targets t).data :=
@@ -352,7 +353,8 @@ theorem ref_evaluated_cause {s : State} (h : Inv s) (hs : s.sched = []) (inp : C
     show (cycleMid s inp).ref ≠ s.ref
     rw [cycleMid_eq, e]
     have g := retargetAll_frame i (List.range (afterTicks s inp).nC)
-      { afterTicks s inp with ref := some i, refLmt := (afterTicks s inp).now }
+      { afterTicks s inp with ref := some i, refLmt := (afterTicks s inp).now,
+                               sched := (afterTicks s inp).sched ++ (afterTicks s inp).resample }
     rw [g.2.2.2.2.1]
     rw [f.2.2.2.2.1] at hne
     exact fun e' => hne e'.symm
@@ -408,7 +410,8 @@ theorem retarget_link {s : State} (h : Inv s) (inp : CycleIn) {i c : Nat} (hsel 
   have f := afterTicks_frame s inp
   have hne' : (afterTicks s inp).ref ≠ some i := by rw [f.2.2.2.2.1]; exact hne
   have e : cycleMid s inp =
-      retargetAll { afterTicks s inp with ref := some i, refLmt := (afterTicks s inp).now } i
+      retargetAll { afterTicks s inp with ref := some i, refLmt := (afterTicks s inp).now,
+                                          sched := (afterTicks s inp).sched ++ (afterTicks s inp).resample } i
         (List.range (afterTicks s inp).nC) := by
     rw [cycleMid_eq, hsel, select_eq]; simp [hne']
   have hmem : c ∈ List.range (afterTicks s inp).nC := by rw [f.2.1]; exact List.mem_range.mpr hc
@@ -420,7 +423,9 @@ theorem retarget_link {s : State} (h : Inv s) (inp : CycleIn) {i c : Nat} (hsel 
   · intro hp
     rw [e]
     exact retargetAll_sched_in i _
-      { afterTicks s inp with ref := some i, refLmt := (afterTicks s inp).now } List.nodup_range hmem hb hp
+      { afterTicks s inp with ref := some i, refLmt := (afterTicks s inp).now,
+                               sched := (afterTicks s inp).sched ++ (afterTicks s inp).resample }
+      List.nodup_range hmem hb hp
 
 /-- **ref_evaluated_when_target_ticks**: whenever the target designated at the end of the cycle ticks in
 that cycle, every consumer below the reference is evaluated in that cycle. -/
@@ -451,7 +456,8 @@ theorem ref_evaluated_when_target_ticks {s : State} (h : Inv s) (inp : CycleIn) 
     · -- retarget to `t` in this very cycle: the new target is valid, the re-bind publishes
       have hit : i = t := by
         have g := retargetAll_frame i (List.range (afterTicks s inp).nC)
-          { afterTicks s inp with ref := some i, refLmt := (afterTicks s inp).now }
+          { afterTicks s inp with ref := some i, refLmt := (afterTicks s inp).now,
+                                   sched := (afterTicks s inp).sched ++ (afterTicks s inp).resample }
         rw [e, g.2.2.2.2.1] at hr
         exact Option.some.inj hr
       subst hit
